@@ -1,0 +1,43 @@
+//go:build verif
+
+// Machine-checked contracts for package certloader (comment-only; see /verif/DESIGN.md).
+
+package certloader
+
+//@ func LoadTokenCertificates
+//@   property C07
+//@   ghost leafOK bool = false
+//@   ghost pgpOK bool = false
+//@   on call x509tools.SameKey(a, b) ret (r): leafOK = leafOK || (r && a == key && b == cert.Leaf.PublicKey); \
+//@        pgpOK = pgpOK || (r && a == key && b == priv.PublicKey.PublicKey)
+//@   ensures @leaf_certificate_matches_the_token_key ret1 == nil && ret0.Leaf != nil ==> leafOK
+//@   ensures @pgp_certificate_matches_the_token_key ret1 == nil && ret0.PgpKey != nil ==> pgpOK
+//@   ensures @pgp_entity_carries_the_token_key ret1 == nil && ret0.PgpKey != nil ==> ret0.PgpKey.PrivateKey.PrivateKey == key
+//@   ensures @bundle_carries_the_token_key ret1 == nil ==> ret0 != nil && ret0.PrivateKey == key
+//@
+//@ func LoadX509KeyPair
+//@   property C07
+//@   ghost ok bool = false
+//@   on call x509tools.SameKey(a, b) ret (r): ok = (r && a == cert.Leaf.PublicKey && b == key)
+//@   ensures @certificate_matches_the_private_key ret1 == nil ==> ok && ret0.PrivateKey == key && ret0 == cert
+//@
+//@ func parseCertificates
+//@   property C07
+//@   loop 0 sig "for" invariant forall(i, 0, len(certs), certs[i] != nil) && (certs == nil || allocated(certs))
+//@   ensures @leaf_is_first ret1 == nil ==> ret0 != nil && ret0.Leaf != nil && len(ret0.Certificates) >= 1 && ret0.Leaf == ret0.Certificates[0]
+//@   ensures @no_key_material_yet ret1 == nil ==> ret0.PgpKey == nil && ret0.PrivateKey == nil
+//@   modifies nothing
+//@   fresh ret0
+//@
+//@ func parseCertificatesDer
+//@   property C07
+//@   ensures @leaf_is_first ret1 == nil ==> ret0 != nil && ret0.Leaf != nil && len(ret0.Certificates) >= 1 && ret0.Leaf == ret0.Certificates[0]
+//@   ensures @no_nil_certificates ret1 == nil ==> forall(i, 0, len(ret0.Certificates), ret0.Certificates[i] != nil)
+//@   ensures @no_key_material_yet ret1 == nil ==> ret0.PgpKey == nil && ret0.PrivateKey == nil
+//@   modifies nothing
+//@   fresh ret0
+//@
+//@ func (*Certificate).Chain
+//@   property C07
+//@   loop 0 sig "for i, cert := range s.Certificates" invariant s.Leaf != nil ==> len(chain) >= 1 && chain[0] == s.Leaf
+//@   ensures @chain_begins_with_the_leaf s.Leaf != nil ==> len(ret0) >= 1 && ret0[0] == s.Leaf
